@@ -242,6 +242,18 @@ theorem fall_unguarded_nat (n c : Nat) :
 /-- general rates are written verbatim: the kinetic law *is* the rate expression (C02 gives its meaning). -/
 theorem kl_general (e : Expr α) : (fun (rate : Expr α) => rate) e = e := rfl
 
+/-- a general rate without a step function, read as plain SBML mathematics, has the value of the written formula. -/
+theorem kl_general_stepfree (env : Env α) (e : Expr α) (h : hasStep e = false) : docEval env e = Expr.eval env e := by
+  simp [docEval, h]
+
+/-- (known finding) a general rate that contains `Heaviside` is exported as a call of a function the document does
+not define: read as plain SBML mathematics it has no value, whatever the state. -/
+theorem kl_general_step_undefined (env : Env α) (e : Expr α) (h : hasStep e = true) : docEval env e = none := by
+  simp [docEval, h]
+
+example : hasStep (Expr.mul (.ident "k") (.step (.sub (.ident "A") (.num (2 : Rat))))) = true := by decide
+example : hasStep (Expr.mul (.ident "k") (.log (.add (.ident "A") (.num (1 : Rat))))) = false := by decide
+
 /-! ### Hill family: the full statement fails on this tree (known finding) -/
 
 /-- the written Hill law mentions the identifier `n`, which the document does not define: read as plain SBML
